@@ -29,14 +29,15 @@ VARIABLES
   terms,     \* TERM signals sent to the process
   exited,
   wrote,     \* ownership-related commands written in this step
+  shut,      \* the application's reactor has shut down (its "before shutdown" triggers have run)
   steps
 
-vars == <<dirKind, dirExists, attempted, conn, stage, subscribed, owned, saw100, res, launch, nlaunch, tmo, terms, exited, wrote, steps>>
+vars == <<dirKind, dirExists, attempted, conn, stage, subscribed, owned, saw100, res, launch, nlaunch, tmo, terms, exited, wrote, shut, steps>>
 
 Init ==
   /\ dirKind \in {"temp", "user", "cfg"} /\ dirExists = TRUE
   /\ attempted = FALSE /\ conn = "none" /\ stage = "none" /\ subscribed = FALSE /\ owned = FALSE /\ saw100 = FALSE
-  /\ res = "p" /\ launch = "p" /\ nlaunch = 0 /\ tmo = "armed" /\ terms = 0 /\ exited = FALSE /\ wrote = <<>> /\ steps = 0
+  /\ res = "p" /\ launch = "p" /\ nlaunch = 0 /\ tmo = "armed" /\ terms = 0 /\ exited = FALSE /\ wrote = <<>> /\ shut = FALSE /\ steps = 0
 
 \* the launch result follows the "connected" outcome; on success launch() additionally waits until the
 \* configuration object is attached, i.e. until no ownership command is still awaiting its reply
@@ -102,14 +103,24 @@ Exit ==
   /\ wrote' = <<>> /\ Settle(res', stage)
   /\ UNCHANGED <<dirKind, attempted, conn, stage, subscribed, owned, saw100, tmo, terms>>
 
+\* the application ends while Tor may still be running: the reactor runs its "before shutdown" triggers; a data
+\* directory that launch() made goes away, the caller's stays.  Nothing further is observed afterwards.
+Shutdown ==
+  /\ ~shut /\ shut' = TRUE
+  /\ dirExists' = IF dirKind = "temp" THEN FALSE ELSE dirExists
+  /\ wrote' = <<>> /\ steps' = steps + 1
+  /\ UNCHANGED <<dirKind, attempted, conn, stage, subscribed, owned, saw100, res, launch, nlaunch, tmo, terms, exited>>
+
 Next ==
-  /\ steps < MaxSteps
-  /\ \/ \E m \in BOOLEAN : Stdout(m)
-     \/ Stderr
-     \/ \E h \in {"ok", "authfail", "refused"} : Connect(h)
-     \/ \E ok \in BOOLEAN : CtlReply(ok)
-     \/ \E p \in {10, 50, 100} : Progress(p)
-     \/ Timeout \/ Exit
+  /\ steps < MaxSteps /\ ~shut
+  /\ \/ /\ \/ \E m \in BOOLEAN : Stdout(m)
+           \/ Stderr
+           \/ \E h \in {"ok", "authfail", "refused"} : Connect(h)
+           \/ \E ok \in BOOLEAN : CtlReply(ok)
+           \/ \E p \in {10, 50, 100} : Progress(p)
+           \/ Timeout \/ Exit
+        /\ UNCHANGED shut
+     \/ Shutdown
 
 Spec == Init /\ [][Next]_vars
 
@@ -118,9 +129,9 @@ AtMostOnce == nlaunch <= 1 /\ (launch = "p" <=> nlaunch = 0)
 SuccessOnlyAfterBootstrap == launch = "ok" => saw100 /\ subscribed /\ owned    \* (subscribed: some control connection is up and authenticated)
 FailsIfEndedOrTimedOutFirst == ((exited \/ tmo = "fired") /\ res # "ok") => launch = "err"
 TermOnTimeout == tmo = "fired" => (terms >= 1 \/ exited)
-TempDirRemoved == (exited /\ dirKind = "temp") => ~dirExists
+TempDirRemoved == ((exited \/ shut) /\ dirKind = "temp") => ~dirExists
 UserDirKept == dirKind \in {"user", "cfg"} => dirExists
-TempDirKeptWhileRunning == ~exited => dirExists
+TempDirKeptWhileRunning == (~exited /\ ~shut) => dirExists
 NoFlip == [][launch # "p" => launch' = launch]_vars
 TypeOK == launch \in {"p", "ok", "err"}
 =============================================================================
